@@ -16,6 +16,7 @@ import (
 	"os"
 	"strings"
 	"testing"
+	"time"
 
 	"github.com/bfenetworks/bfe/bfe_balance/backend"
 	"github.com/bfenetworks/bfe/bfe_balance/bal_slb"
@@ -26,18 +27,19 @@ import (
 )
 
 type c04Step struct {
-	Op   string // "pick", "pick-hold" (caller keeps the connection: IncConnNum), "inc", "dec", "flip", "reload"
+	Op   string // "pick", "pick-hold" (caller keeps the connection: IncConnNum), "inc", "dec", "flip", "reload", "pick-wait" (pick, then let K ms of slow-start ramp pass)
 	I    int    // member index (mod current size)
 	K    int    // amount for inc/dec
 	Next []beSpec
 }
 
 type c04Plan struct {
-	Path    string // "rr-smooth", "rr-simple", "gslb"
-	Members []beSpec
-	Down    []string
-	Conns   []int
-	Steps   []c04Step
+	Path      string // "rr-smooth", "rr-simple", "gslb"
+	SlowStart int    // slow start time in seconds, 0 = off
+	Members   []beSpec
+	Down      []string
+	Conns     []int
+	Steps     []c04Step
 }
 
 func genC04Weight(rt *rapid.T, label string) int {
@@ -80,12 +82,24 @@ func genC04Plan(rt *rapid.T) c04Plan {
 		}
 		p.Conns = append(p.Conns, c)
 	}
+	// slow start: a backend added by a reload or brought back up is flagged
+	// restarted and ramps from weight 0 to its configured weight over
+	// SlowStartTime seconds of wall clock. The generator lets a few ms pass
+	// ("pick-wait") so that picks happen in the middle of a ramp; the oracle reads
+	// the effective weights the balancer used, so timing never decides a verdict.
+	p.SlowStart = rapid.SampledFrom([]int{0, 0, 0, 1, 1, 2}).Draw(rt, "slowStart")
+	ops := []string{"pick", "pick-hold", "pick-hold", "pick-hold", "pick-hold", "inc", "dec", "dec", "dec", "flip", "reload"}
+	if p.SlowStart > 0 {
+		ops = append(ops, "pick-wait", "flip")
+	}
 	ns := rapid.IntRange(5, 25).Draw(rt, "nsteps")
 	members := p.Members
 	for s := 0; s < ns; s++ {
-		st := c04Step{Op: rapid.SampledFrom([]string{"pick", "pick-hold", "pick-hold", "pick-hold", "pick-hold", "inc", "dec", "dec", "dec", "flip", "reload"}).Draw(rt, fmt.Sprintf("op%d", s))}
+		st := c04Step{Op: rapid.SampledFrom(ops).Draw(rt, fmt.Sprintf("op%d", s))}
 		st.I = rapid.IntRange(0, 7).Draw(rt, fmt.Sprintf("i%d", s))
 		switch st.Op {
+		case "pick-wait":
+			st.K = rapid.IntRange(1, 3).Draw(rt, fmt.Sprintf("ms%d", s))
 		case "inc", "dec":
 			st.K = rapid.IntRange(1, 5).Draw(rt, fmt.Sprintf("k%d", s))
 		case "reload":
@@ -121,7 +135,7 @@ func genC04Plan(rt *rapid.T) c04Plan {
 
 func (p c04Plan) fingerprint() string {
 	var sb strings.Builder
-	fmt.Fprintf(&sb, "%s|%s|%v|%v", p.Path, fmtBackends(p.Members), p.Down, p.Conns)
+	fmt.Fprintf(&sb, "%s|ss%d|%s|%v|%v", p.Path, p.SlowStart, fmtBackends(p.Members), p.Down, p.Conns)
 	for _, s := range p.Steps {
 		fmt.Fprintf(&sb, "|%s %d %d %s", s.Op, s.I, s.K, fmtBackends(s.Next))
 	}
@@ -160,6 +174,24 @@ func (b *c04Bal) update(ms []beSpec) error {
 	return nil
 }
 
+// effective returns addr:port -> weight the balancer currently holds (x100 scale).
+func (b *c04Bal) effective() map[string]int {
+	brr := b.brr
+	if b.path == "gslb" {
+		for i := 0; i < b.r.bal.SubClusterNum(); i++ {
+			if n, x := b.r.bal.VerifSubClusterAt(i); n == c04Sub {
+				brr = x
+			}
+		}
+	}
+	out := map[string]int{}
+	for j := 0; j < brr.Len(); j++ {
+		w, _ := brr.VerifCreditAt(j)
+		out[brr.VerifBackendAt(j).AddrInfo] = w
+	}
+	return out
+}
+
 func (b *c04Bal) handles() map[string][]*backend.BfeBackend {
 	if b.path == "gslb" {
 		return b.r.handles()[c04Sub]
@@ -188,7 +220,7 @@ func TestC04(t *testing.T) {
 func c04Run(tb ev.TB, rec *ev.Rec, p c04Plan) {
 	bal := &c04Bal{path: p.Path}
 	if p.Path == "gslb" {
-		r, err := newRig([]subSpec{{Name: c04Sub, Weight: 100, Backends: p.Members}}, gbSpec{RetryMax: 2, Strategy: stratIPOnly, Mode: "WLC"})
+		r, err := newRig([]subSpec{{Name: c04Sub, Weight: 100, Backends: p.Members}}, gbSpec{RetryMax: 2, Strategy: stratIPOnly, Mode: "WLC", SlowStart: p.SlowStart})
 		if err != nil {
 			rec.Excluded("loader-rejected")
 			return
@@ -207,10 +239,12 @@ func c04Run(tb ev.TB, rec *ev.Rec, p c04Plan) {
 		}
 		bal.brr = bal_slb.NewBalanceRR("s")
 		bal.brr.Init(conf)
+		bal.brr.SetSlowStart(p.SlowStart)
 	}
 	// model state
 	members := p.Members
 	avail := map[string]bool{}
+	ramp := map[string]bool{} // flagged restarted while slow start is on
 	conn := map[string]int{}
 	hs := bal.handles()
 	for i, m := range members {
@@ -228,12 +262,12 @@ func c04Run(tb ev.TB, rec *ev.Rec, p c04Plan) {
 	witness := func() map[string]any {
 		st := []string{}
 		for _, m := range members {
-			st = append(st, fmt.Sprintf("%s w=%d conn=%d avail=%v", m.key(), m.Weight, conn[m.key()], avail[m.key()]))
+			st = append(st, fmt.Sprintf("%s w=%d conn=%d avail=%v restarted-in-slow-start=%v", m.key(), m.Weight, conn[m.key()], avail[m.key()], ramp[m.key()]))
 		}
 		return map[string]any{"plan": p, "state_at_failure": st, "trace": trace}
 	}
 	var fpb strings.Builder
-	fmt.Fprintf(&fpb, "%s|%s|%v|%v", p.Path, fmtBackends(p.Members), p.Down, p.Conns)
+	fmt.Fprintf(&fpb, "%s|ss%d|%s|%v|%v", p.Path, p.SlowStart, fmtBackends(p.Members), p.Down, p.Conns)
 
 	for _, st := range p.Steps {
 		fmt.Fprintf(&fpb, "|%s %d %d %s", st.Op, st.I, st.K, fmtBackends(st.Next))
@@ -259,6 +293,13 @@ func c04Run(tb ev.TB, rec *ev.Rec, p c04Plan) {
 		case "flip":
 			m := members[st.I%len(members)]
 			avail[m.key()] = !avail[m.key()]
+			if avail[m.key()] {
+				// recovery as done by the health checker: restart flag, then available
+				hs[m.key()][0].SetRestart(true)
+				if p.SlowStart > 0 {
+					ramp[m.key()] = true
+				}
+			}
 			hs[m.key()][0].SetAvail(avail[m.key()])
 			trace = append(trace, fmt.Sprintf("avail %s=%v", m.key(), avail[m.key()]))
 		case "reload":
@@ -266,28 +307,57 @@ func c04Run(tb ev.TB, rec *ev.Rec, p c04Plan) {
 				rec.Excluded("reload-rejected")
 				continue
 			}
-			na, nc := map[string]bool{}, map[string]int{}
+			na, nc, nr := map[string]bool{}, map[string]int{}, map[string]bool{}
 			for _, m := range st.Next {
 				if a, was := avail[m.key()]; was {
-					na[m.key()], nc[m.key()] = a, conn[m.key()]
+					na[m.key()], nc[m.key()], nr[m.key()] = a, conn[m.key()], ramp[m.key()]
 				} else {
-					na[m.key()], nc[m.key()] = true, 0
+					// new object: available, no connections, flagged restarted by Update
+					na[m.key()], nc[m.key()], nr[m.key()] = true, 0, p.SlowStart > 0
 				}
 			}
-			avail, conn, members = na, nc, st.Next
+			avail, conn, ramp, members = na, nc, nr, st.Next
 			hs = bal.handles()
 			trace = append(trace, "reload "+fmtBackends(st.Next))
-		case "pick", "pick-hold":
-			// argmin over exact rationals
+		case "pick", "pick-hold", "pick-wait":
+			be, err := bal.pick()
+			// weights the balancer used for this selection (slow start changes them
+			// with the wall clock; nothing else touches them until the next call)
+			eff := bal.effective()
+			rampingElig := false
+			for _, m := range members {
+				e, ok := eff[m.key()]
+				switch {
+				case !ok:
+					rec.Fail(tb, "member-missing", witness(), "configured backend %s is not in the balancer's list", m.key())
+					return
+				case !ramp[m.key()] || m.Weight <= 0:
+					if e != m.Weight*100 {
+						w := witness()
+						w["effective_weights"] = eff
+						rec.Fail(tb, "effective-weight-differs-from-configured", w, "backend %s (configured weight %d, restarted under slow start: %v) is scheduled with effective weight %d, want %d", m.key(), m.Weight, ramp[m.key()], e, m.Weight*100)
+						return
+					}
+				case e < 0 || e > m.Weight*100:
+					w := witness()
+					w["effective_weights"] = eff
+					rec.Fail(tb, "ramp-weight-out-of-range", w, "backend %s in slow start has effective weight %d outside 0..%d", m.key(), e, m.Weight*100)
+					return
+				}
+				if avail[m.key()] && e > 0 && e != m.Weight*100 {
+					rampingElig = true
+				}
+			}
+			// argmin over exact rationals conn / effective weight
 			var min *big.Rat
 			nElig := 0
 			allEqual := true
 			for _, m := range members {
-				if !avail[m.key()] || m.Weight <= 0 {
+				if !avail[m.key()] || eff[m.key()] <= 0 {
 					continue
 				}
 				nElig++
-				r := big.NewRat(int64(conn[m.key()]), int64(m.Weight))
+				r := big.NewRat(int64(conn[m.key()]), int64(eff[m.key()]))
 				if min == nil {
 					min = r
 				} else {
@@ -301,12 +371,17 @@ func c04Run(tb ev.TB, rec *ev.Rec, p c04Plan) {
 			}
 			argmin := map[string]bool{}
 			for _, m := range members {
-				if min != nil && avail[m.key()] && m.Weight > 0 && big.NewRat(int64(conn[m.key()]), int64(m.Weight)).Cmp(min) == 0 {
+				if min != nil && avail[m.key()] && eff[m.key()] > 0 && big.NewRat(int64(conn[m.key()]), int64(eff[m.key()])).Cmp(min) == 0 {
 					argmin[m.key()] = true
 				}
 			}
-			be, err := bal.pick()
 			classes := []string{"path=" + p.Path}
+			if p.SlowStart > 0 {
+				classes = append(classes, "slow-start")
+			}
+			if rampingElig {
+				classes = append(classes, "slow-start:eligible-member-mid-ramp")
+			}
 			switch {
 			case nElig == 0:
 				classes = append(classes, "no-eligible")
@@ -326,6 +401,9 @@ func c04Run(tb ev.TB, rec *ev.Rec, p c04Plan) {
 					return
 				}
 				trace = append(trace, "pick -> error (none eligible)")
+				if st.Op == "pick-wait" {
+					time.Sleep(time.Duration(st.K) * time.Millisecond)
+				}
 				continue
 			}
 			if err != nil || be == nil {
@@ -338,6 +416,7 @@ func c04Run(tb ev.TB, rec *ev.Rec, p c04Plan) {
 				w["picked"] = id
 				w["argmin"] = fmt.Sprint(argmin)
 				w["min_ratio"] = min.String()
+				w["effective_weights"] = eff
 				key := "not-a-minimiser"
 				if a, ok := avail[id]; !ok || !a {
 					key = "picked-unavailable"
@@ -354,6 +433,9 @@ func c04Run(tb ev.TB, rec *ev.Rec, p c04Plan) {
 			if st.Op == "pick-hold" {
 				be.IncConnNum()
 				conn[id]++
+			}
+			if st.Op == "pick-wait" {
+				time.Sleep(time.Duration(st.K) * time.Millisecond)
 			}
 			trace = append(trace, fmt.Sprintf("%s -> %s", st.Op, id))
 			if len(trace) > 40 {
